@@ -278,6 +278,7 @@ func CheckMain(args []string) int {
 	if !*keep {
 		defer os.RemoveAll(outDir)
 	}
+	defer CleanupReplay()
 	opts := SolveOpts{QuickMs: 4000, RaceMs: 12000, OutDir: outDir, Seed: seed}
 	if tier == "thorough" {
 		opts.QuickMs, opts.RaceMs = 10000, 60000
